@@ -4,7 +4,7 @@
    Constant, no other Extract Inductive. *)
 Require Extraction.
 Require Import ExtrOcamlBasic.
-From FV Require Import Base.Serial Session.Window Link.SenderCredit Base.Bytes Codec.Value Codec.Enc Codec.Dec Codec.Spec Codec.Composite Codec.Message Codec.CompositeSpec Frame.AmqpFrame Frame.TransferWire Frame.Transfer Lib.LengthDelimited Session.Disposition Lib.Slab Session.Ids Conn.Lifecycle Conn.WireEvents Conn.Timers Link.Receiver Session.SessLife Auth.SaslListener Frame.SessionSplit Link.LinkLife Link.RecvLife Link.SendCancel Txn.Manager Conn.Failure Auth.ScramClient Frame.SaslFrame Auth.SaslWire.
+From FV Require Import Base.Serial Session.Window Link.SenderCredit Base.Bytes Codec.Value Codec.Enc Codec.Dec Codec.Spec Codec.Composite Codec.Message Codec.CompositeSpec Frame.AmqpFrame Frame.TransferWire Frame.Transfer Lib.LengthDelimited Session.Disposition Lib.Slab Session.Ids Conn.Lifecycle Conn.WireEvents Conn.Timers Link.Receiver Session.SessLife Auth.SaslListener Frame.SessionSplit Link.LinkLife Link.RecvLife Link.SendCancel Txn.Manager Conn.Failure Auth.ScramClient Frame.SaslFrame Auth.SaslWire Txn.Controller.
 Extraction Language OCaml.
 Separate Extraction
   Window.run Window.step Window.begun_for_oracle Window.on_incoming_flow
@@ -26,4 +26,5 @@ Separate Extraction
   Manager.step Manager.enabled Manager.init
   Failure.step Failure.init
   ScramClient.cstep
-  SaslFrame.enc_sasl_frame SaslFrame.dec_sasl_frame SaslFrame.sasl_schemas SaslWire.plain_on_frame_bytes SaslWire.typed_ok.
+  SaslFrame.enc_sasl_frame SaslFrame.dec_sasl_frame SaslFrame.sasl_schemas SaslWire.plain_on_frame_bytes SaslWire.typed_ok
+  Controller.crun Controller.final_wire.
